@@ -24,6 +24,8 @@ def run(check):
     check.run_rule('C05.R2', lambda c: rule_parameter_fields(c, 'C05.R2'))
     check.run_rule('C05.R3', lambda c: rule_scopes(c, 'C05.R3'))
     check.run_rule('C05.R4', lambda c: rule_evaluation_order(c, 'C05.R4'))
+    from ..rules_visitor import rule_prescan_exhaustive
+    check.run_rule('C05.R4b', lambda c: rule_prescan_exhaustive(c, 'C05.R4'))
     check.run_rule('C05.R5', lambda c: rule_invalidation_tables(c, 'C05.R5'))
     check.run_rule('C05.R6', lambda c: rule_star_extraction(c, 'C05.R6'))
     check.run_rule('C05.R7', lambda c: rule_resolution_order(c, 'C05.R7'))
